@@ -20,13 +20,13 @@ RULE = ("exhaustive enumeration (see exhaustive_subspace) of (input shape, targe
         "Mask2D.resized_from + Grid2D.from_mask for the coordinate clause; plus a random stream of larger shapes. "
         "Every case is non-trivial (it runs an anchored routine); distinct = distinct JSON input.")
 EXHAUSTIVE = {
-    "quick": "util resize: all shapes 1..6 x 1..6 to all targets 0..7 x 0..7; Array2D/Mask2D.resized_from: shapes 1..4^2 to "
+    "quick": "util resize: all shapes 1..5 x 1..5 to all targets 0..6 x 0..6; Array2D/Mask2D.resized_from: shapes 1..4^2 to "
              "targets 1..6^2 (mask drawn per case); pad / trim / pad-then-trim / trimmed_array_from: shapes 1..4^2 x kernels "
-             "{1,3,5,7}^2; enlarge-then-shrink: shapes 1..4^2 x enlargements 0..3 per axis; zoom: every mask with H*W <= 8, "
+             "{1,3,5,7}^2; enlarge-then-shrink: shapes 1..4^2 x enlargements 0..3 per axis; zoom: every mask with H*W <= 7, "
              "buffer cycling 0,1,2; apply_mask: every mask with H*W <= 6 with kernel (3,3)",
     "thorough": "util resize: shapes 1..9^2 to targets 0..10^2; Array2D/Mask2D.resized_from: shapes 1..7^2 to targets 1..9^2; "
                 "pad/trim family: shapes 1..6^2 x kernels {1,3,5,7}^2; enlarge-then-shrink: shapes 1..6^2 x enlargements 0..4; "
-                "zoom: every mask with H*W <= 12 and each buffer 0,1,2; apply_mask: every mask with H*W <= 9, kernels (3,3),(1,5),(5,3)",
+                "zoom: every mask with H*W <= 10 (each buffer 0,1,2 up to H*W <= 8, cycling above); apply_mask: every mask with H*W <= 9, kernels (3,3),(1,5),(5,3)",
 }
 TRUSTED = ["correspondence harness harness/c14.py (exact: integer data, dyadic pixel scales / origins, outputs converted with Fraction)",
            "numpy slicing a[lo:hi] (Model.C14.pyslice incl. negative bounds), element-wise array *= invert(mask) "
@@ -74,7 +74,7 @@ ODD = [1, 3, 5, 7]
 def gen_inputs(tier, rng):
     big = tier == "thorough"
     # --- util resize, exhaustive over shapes and targets (all parity combinations)
-    S, R = (9, 10) if big else (6, 7)
+    S, R = (9, 10) if big else (5, 6)
     for h, w in itertools.product(range(1, S + 1), repeat=2):
         m = [[1 + y * w + x for x in range(w)] for y in range(h)]
         for r0, r1 in itertools.product(range(0, R + 1), repeat=2):
@@ -124,13 +124,13 @@ def gen_inputs(tier, rng):
             if ish[0] < 0 or ish[1] < 0: continue
             yield {"op": "trimarr", "p": values(h, w, rng), "is": ish}
     # --- zoom
-    lim = 12 if big else 8
+    lim = 10 if big else 7
     for h in range(1, lim + 1):
         for w in range(1, lim // h + 1):
             for mk in all_masks(h, w):
                 i += 1
                 yield {"op": "zoom_region", "m": mk}
-                for b in ((0, 1, 2) if big else (i % 3,)):
+                for b in ((0, 1, 2) if big and h * w <= 8 else (i % 3,)):
                     yield {"op": "zoom", "a": [values(h, w, rng), mk], "b": b}
     yield {"op": "zoom", "a": [values(2, 2, rng), rmask(2, 2, rng, 0.5)], "b": -1}
     # --- Imaging.apply_mask
@@ -143,13 +143,13 @@ def gen_inputs(tier, rng):
                     i += 1
                     yield {"op": "apply_mask", "data": values(h, w, rng), "noise": values(h, w, rng, 1, 9), "m": mk,
                            "k": list(k), "g": list(GEOMS[i % len(GEOMS)])}
-    for _ in range(4000 if big else 500):
+    for _ in range(3000 if big else 300):
         h, w = rng.randint(1, 7), rng.randint(1, 7)
         k = rng.choice([None, None] + [[a, b] for a in ODD for b in ODD] + [[2, 2], [4, 3]])
         yield {"op": "apply_mask", "data": values(h, w, rng), "noise": values(h, w, rng, 1, 9),
                "m": rmask(h, w, rng, rng.choice([0.3, 0.6, 0.9])), "k": k, "g": list(rng.choice(GEOMS))}
     # --- random larger shapes
-    for _ in range(3000 if big else 300):
+    for _ in range(2000 if big else 200):
         h, w = rng.randint(5, 12), rng.randint(5, 12)
         r = [rng.randint(1, 14), rng.randint(1, 14)]
         a = [values(h, w, rng, -99, 99), rmask(h, w, rng)]
